@@ -328,11 +328,55 @@ func c20cases(c *Ctx) []c20case {
 			add("message", buf.Bytes(), client.NameForMessageType(typ)+"/random-tail")
 		}
 	}
-	// stored records
-	for kind, rec := range validRecords(g) {
-		_ = kind
-		_ = rec
+	// messages that really carry more elements than any up-front allocation: whole, and cut short
+	txFrom, txTo, plantOff = -1, -1, -1
+	{
+		n := 4090 + int(t.Choose(1200))
+		var big []client.MessagePayload
+		switch c.Run % 5 {
+		case 0:
+			m := &client.ReprocessTx{TxID: g.hash()}
+			for i := 0; i < n; i++ {
+				var id bitcoin.Hash20
+				id[0], id[1] = byte(i), byte(i>>8)
+				m.ClientIDs = append(m.ClientIDs, id)
+			}
+			big = append(big, m)
+		case 1:
+			m := &client.SubscribeTx{TxID: g.hash()}
+			for i := 0; i < n; i++ {
+				m.Indexes = append(m.Indexes, uint32(i))
+			}
+			big = append(big, m)
+		case 2:
+			m := &client.SubscribeOutputs{}
+			for i := 0; i < n; i++ {
+				h := g.hash()
+				m.Outputs = append(m.Outputs, wire.NewOutPoint(&h, uint32(i)))
+			}
+			big = append(big, m)
+		case 3:
+			m := &client.SubscribePushData{}
+			for i := 0; i < n; i++ {
+				m.PushDatas = append(m.PushDatas, []byte{byte(i), byte(i >> 8)})
+			}
+			big = append(big, m, &client.UnsubscribePushData{PushDatas: m.PushDatas})
+		default:
+			m := &client.Headers{RequestHeight: 5, StartHeight: 5}
+			for i := 0; i < n; i++ {
+				m.Headers = append(m.Headers, &wire.BlockHeader{Version: 1, MerkleRoot: g.hash(), Timestamp: uint32(1600000000 + i), Bits: 0x1d00ffff, Nonce: uint32(i)})
+			}
+			big = append(big, m)
+		}
+		for _, m := range big {
+			if enc, err := encodeMessage(m); err == nil {
+				name := client.NameForMessageType(m.Type())
+				add("message", enc, name+"/really-large-list")
+				add("message", enc[:len(enc)-1-int(t.Choose(uint32(len(enc)/2)))], name+"/really-large-list-truncated")
+			}
+		}
 	}
+	// stored records
 	txFrom, txTo, plantOff = -1, -1, -1
 	recs := validRecords(g)
 	for _, kind := range []string{"peers", "reorg-active", "reorg-list", "unconfirmed", "tx-record", "blocks", "block-txids"} {
